@@ -5,6 +5,8 @@ import math
 import numpy as np
 from hypothesis import strategies as st
 
+from ..core import sampled_from  # noqa: E402
+
 from .. import build, facegen, meshgen
 from .. import sphere as S
 from ..core import Failure
@@ -39,7 +41,7 @@ SLACK = 2e-8  # the library's ERROR_TOLERANCE is 1e-8: extremes that close to a 
 def _bulge_face(draw):
     """Wide face at mid/high latitude: the bottom edge A->B bulges poleward beyond both end
     points; drawn so that the strictly lowest corner can be the *first* node of that edge."""
-    lon0 = draw(st.sampled_from([0.0, -180.0, 170.0, -10.0, 100.0]) | st.floats(-180, 180))
+    lon0 = draw(sampled_from([0.0, -180.0, 170.0, -10.0, 100.0]) | st.floats(-180, 180))
     w = draw(st.floats(40.0, 150.0))
     la = draw(st.floats(15.0, 60.0))
     lb = la + draw(st.floats(-8.0, 8.0))
@@ -72,11 +74,11 @@ def _bulge_face(draw):
 @st.composite
 def _pole_corner_face(draw):
     north = draw(st.booleans())
-    lon0 = draw(st.sampled_from([0.0, -180.0, 170.0, -30.0]) | st.floats(-180, 180))
+    lon0 = draw(sampled_from([0.0, -180.0, 170.0, -30.0]) | st.floats(-180, 180))
     w = draw(st.floats(10.0, 160.0))
     la = draw(st.floats(-20.0, 85.0))
     lb = draw(st.floats(-20.0, 85.0))
-    plon = draw(st.sampled_from([0.0, 180.0, -90.0, lon0 + w / 2, lon0 + w / 2 + 180.0]) | st.floats(-180, 180))
+    plon = draw(sampled_from([0.0, 180.0, -90.0, lon0 + w / 2, lon0 + w / 2 + 180.0]) | st.floats(-180, 180))
     pts = [(plon, 90.0), (lon0, la), (lon0 + w, lb)]
     if draw(st.booleans()):
         a, b = S.ll2xyz(lon0, la), S.ll2xyz(lon0 + w, lb)
@@ -97,10 +99,10 @@ def _pole_corner_face(draw):
 
 @st.composite
 def _case(draw, tier):
-    mode = draw(st.sampled_from(["face", "face", "face", "bulge", "bulge", "pole-corner", "mesh"]))
+    mode = draw(sampled_from(["face", "face", "face", "bulge", "bulge", "pole-corner", "mesh"]))
     if mode == "mesh":
         big = tier != "quick"
-        k = draw(st.sampled_from(["hull", "hull", "latlon"]))
+        k = draw(sampled_from(["hull", "hull", "latlon"]))
         if k == "hull":
             mesh = draw(meshgen.hull_mesh(6, 30 if big else 14, partial=True))
         else:
@@ -120,13 +122,13 @@ def _case(draw, tier):
 def _cdtype():
     """Storage type of the source's node_lon / node_lat: float32 sources are judged on the positions their stored
     values denote, with float32-sized tolerances."""
-    return st.sampled_from(["float64", "float64", "float64", "float32"])
+    return sampled_from(["float64", "float64", "float64", "float32"])
 
 
 def _radius():
     """None: the grid is given by lon/lat alone; a number: it also carries Cartesian node coordinates on a sphere of
     that radius (MPAS / Exodus sources with their own sphere radius)."""
-    return st.sampled_from([None, None, None, 1.0, 2.5, 6371229.0])
+    return sampled_from([None, None, None, 1.0, 2.5, 6371229.0])
 
 
 def _on_ref_meridian(lonlat):
